@@ -13,11 +13,13 @@ def tasks(tier, seed):
         ts = gen.dfa_src_tasks(3, "ab", 12, pools=(0, 1, 2, 3, 4, 5, 6, 7))
         ts += gen.dfa_src_tasks(2, "ab", 1)
         ts += [{"kind": "rnd_dfa", "count": 500, "seed": seed * 50 + i, "maxk": 6} for i in range(3)]
+        ts += [{"kind": "late_split_dfa", "count": 8, "seed": seed * 50 + i} for i in range(6)]
     else:
         ts = gen.dfa_src_tasks(3, "ab", 16, pools=(0, 1, 2, 3, 4, 5, 6, 7))
         ts += gen.dfa_src_tasks(4, "ab", 64, stride=41, pools=(0, 1, 2, 3, 4, 5, 6, 7))
         ts += gen.dfa_src_tasks(4, "a", 4, pools=(0, 5))
         ts += [{"kind": "rnd_dfa", "count": 2000, "seed": seed * 50 + i, "maxk": 7} for i in range(32)]
+        ts += [{"kind": "late_split_dfa", "count": 20, "seed": seed * 50 + i} for i in range(16)]
     return gen.spread(ts, hs)
 
 
@@ -26,13 +28,26 @@ def one(src):
     from gambatools.global_settings import GambaTools
     D = gen.build_dfa(src)
     from gambatools import _verif
+    import contextlib
+    import io
+    # every third automaton is minimised with GambaTools.enable_logging on (the algorithms print their
+    # intermediate partitions then; the result must not depend on it)
+    logging = (src.get("code", src.get("seed", 0)) % 3 == 1) and len(D.Q) <= 8
     for algo in ALGOS:
         pre = ab.dfa(D)
-        GambaTools.enable_logging = False
+        GambaTools.enable_logging = logging
         _verif.take()
-        R, exc = guarded(lambda: getattr(da, algo)(D))
+        try:
+            with contextlib.redirect_stdout(io.StringIO()):
+                R, exc = guarded(lambda: getattr(da, algo)(D))
+        finally:
+            GambaTools.enable_logging = False
         tr = _verif.take()
         ev = {"op": "minimise", "algo": algo, "fa": pre, "exc": exc, "post": ab.dfa(D), "src": src}
+        if logging:
+            ev["logging"] = 1
+        if len(D.Q) > 12:
+            ev["big"] = 1
         if exc == "none":
             ev["res"] = ab.dfa(R)
         yield ev
@@ -103,7 +118,10 @@ MODELS = {
                  ("TableFill", "TableFill_q.cfg", "all DFA(3,{a,b}) x all state orders")],
 }
 RULE = ("every DFA of DFA(3,{a,b}) and DFA(2,{a,b}) (exhaustive; DFA(4,{a,b}) strided in thorough) under six state "
-        "naming schemes, plus random DFAs with 1-7 states over 1-3 symbols; three minimisers each, under several "
+        "naming schemes, plus random DFAs with 1-7 states over 1-3 symbols, plus 'late-split' DFAs with 60-100 states over "
+        "4 symbols (12-15 anchor states told apart early, 40-60 states that differ only in the anchors they reach, a "
+        "router tree; classes by Moore refinement); three minimisers each, every third automaton with "
+        "GambaTools.enable_logging on, under several "
         "PYTHONHASHSEEDs; non-trivial = input has two equivalent states or an unreachable state; distinct = distinct "
         "(algorithm, abstract DFA)")
 
